@@ -8,7 +8,9 @@ from vlib.runner import fail, hyp_run
 LEVEL = "exploration"
 RULE_EXTRA = (" A fifth of the cases request the refinement explicitly: DoGlobalIteration(n) followed by "
               "DoLocalRefinement(k), k in {0,1,2,5,20,-1}, once or twice. User problems may return a new value holder or numpy "
-              "scalars, and the objective may carry a level of +-1e2..1e7.")
+              "scalars, and the objective may carry a level of +-1e2..1e7. The explicit form may go on with more global "
+              "iterations and another refinement; another solver may be run in the process before the result is read; a "
+              "sixth of the boxes are integer-valued and handed over as Python int lists or integer arrays.")
 RULE = ("Hypothesis-generated objectives whose unconstrained minimum lies outside or on the boundary of the box "
         "(linear, bowls with outside vertex, absolute sums with the kink on a face) plus the general families; "
         "N=1..5; boxes incl. far-from-origin and thin ones; refineSolution in {False,True}; itersLimit from 1 up "
